@@ -181,12 +181,19 @@ pub async fn run_heartbeat() {
         Some(p) => (p as u64) * (8 + choice(30) as u64),
     };
     let traffic = choice(3); // 0 = silence from the application, 1 = a session begun, 2 = sessions begun and ended over time
+    // the peer floods the endpoint with (empty) frames while every poll of the endpoint's tasks takes
+    // virtual time: whenever the connection engine looks, another frame has arrived, for longer than
+    // the time-out. The heartbeats must go out all the same.
+    let flood = matches!(advertised, Some(50) | Some(333) | Some(1000)) && choice(3) == 0;
+    // (tokio's timers have a resolution of 1 ms)
+    const POLL_COST_US: u64 = 1000;
     sim::set_config(format!(
-        "variant=heartbeat side={} peer-idle-time-out={:?} observe={}ms traffic={} {}",
+        "variant=heartbeat side={} peer-idle-time-out={:?} observe={}ms traffic={} flood-under-processing-cost={} {}",
         if client_side { "client" } else { "listener" },
         advertised,
         observe_ms,
         traffic,
+        flood,
         nd
     ));
     sim::mark_nontrivial();
@@ -268,8 +275,27 @@ pub async fn run_heartbeat() {
             sim::sleep_ms(observe_ms).await;
         }
     };
+    if flood {
+        sim::set_cpu_cost(if client_side { 1 } else { 2 }, POLL_COST_US);
+    }
+    let mut flood_due = flood;
     let serve = async {
         loop {
+            if flood_due && start.elapsed().as_millis() as u64 >= advertised.unwrap_or(0) as u64 / 2 {
+                flood_due = false;
+                // enough frames to keep the engine busy for three time-outs
+                let n = 3 * advertised.unwrap_or(0) as u64 * 1000 / POLL_COST_US;
+                let mut burst = Vec::with_capacity(8 * 512);
+                for _ in 0..512 {
+                    burst.extend_from_slice(&peer::frame_bytes(0, 0, &[]));
+                }
+                let mut sent = 0;
+                while sent < n {
+                    peer.send_raw(&burst).await;
+                    sent += 512;
+                }
+                sim::probe("flooded-with-frames-while-processing-takes-time");
+            }
             let left = (observe_ms + 50).saturating_sub(start.elapsed().as_millis() as u64);
             if left == 0 {
                 break;
@@ -315,7 +341,11 @@ pub async fn run_heartbeat() {
             times.push(end_us);
             let limit_us = p as u64 * 1000;
             // the transport needs a moment to put the frame on the (simulated) wire: 2 ms of slack
-            let slack = 3_000;
+            // under the flood every iteration of the engine's loop takes POLL_COST_US, and the engine's
+            // select picks among its ready branches at random: the heartbeat that has fallen due wins
+            // an iteration with probability 3/4 at least, so it is 16 iterations late with
+            // probability 4^-16
+            let slack = if flood { 3_000 + 16 * POLL_COST_US } else { 3_000 };
             for w in times.windows(2) {
                 let gap = w[1] - w[0];
                 if gap > limit_us + slack {
